@@ -53,7 +53,7 @@ impl<'a> GeneratorState<'a> {
                 let c = self.last_included_char.next();
                 c?;
                 let c = c.unwrap();
-                self.last_included_position += 1;
+                self.last_included_position += c.len_utf8();
                 if c == '\n' {
                     self.last_included_line_number += 1;
                     start_of_line = self.last_included_char.clone();
@@ -67,7 +67,7 @@ impl<'a> GeneratorState<'a> {
                     return Some(start_of_line.as_str());
                 }
                 let c = c.unwrap();
-                self.last_included_position += 1;
+                self.last_included_position += c.len_utf8();
                 if c == '\n' {
                     self.last_included_line_number += 1;
                     return Some(
